@@ -20,7 +20,9 @@ mod methods {
     }
 
     fn duration(seconds: i64, nanos: i64) -> CelResult<Duration> {
-        Duration::new(seconds, nanos as u32)
+        u32::try_from(nanos)
+            .ok()
+            .and_then(|nanos| Duration::new(seconds, nanos))
             .ok_or_else(|| CelError::value("Invalid argument for duration"))
     }
 }
